@@ -473,13 +473,22 @@ func (g *Gen) scalarExpr(sc scope) string {
 				return pick(g.r, sc.arrs) + "." + pick(g.r, []string{"first", "last", "size"})
 			}
 		case 4:
-			return "p." + pick(g.r, []string{"Name", "Age", "Upper", "nick", "Tags", "PtrLen", "nope"})
+			if g.r.Chance(0.3) {
+				return "q." + pick(g.r, []string{"name", "Title", "Other", "title"})
+			}
+			return "p." + pick(g.r, []string{"Name", "Age", "Upper", "nick", "Tags", "PtrLen", "nope", "ID", "slug", "Base", "Slug"})
 		}
 		if len(sc.maps) > 0 {
 			return pick(g.r, sc.maps) + ".size"
 		}
 		return "p.Name"
 	case 4:
+		if !g.NoCustom && g.r.Chance(0.15) {
+			// a Closure-parameter filter on an all-literal receiver; its expression text
+			// (a string literal) refers to bindings
+			recv := pick(g.r, []string{"(1..6)", `"a,b,apple,10" | split: ","`, "(0..3)"})
+			return recv + ` | hwhere: "x", ` + quote(pick(g.r, []string{"x > n", "x == s", "x != v", "x < f", "x contains t"})) + " | join"
+		}
 		e := pick(g.r, sc.anys)
 		if g.r.Chance(0.3) {
 			e += " | " + pick(g.r, []string{"json", "inspect", "type", "default: \"dflt\"", "date: \"%Y-%m-%d\""})
@@ -593,7 +602,7 @@ func (g *Gen) node(sc *scope, depth int) *TNode {
 		b(g.feat["comment"], 1),               // 11 comment
 		b(g.feat["raw"], 1),                   // 12 raw
 		b(len(g.incArgs) > 0, 3),              // 13 include
-		b(g.feat["custom"] && !g.NoCustom, 1), // 14 echo
+		b(g.feat["custom"] && !g.NoCustom, 3), // 14 echo / expand / bset: their arguments are evaluated at render time
 		b(deep && g.feat["custom"] && !g.NoCustom, 1), // 15 wrap
 		b(g.feat["errors"], 1),                        // 16 error construct
 	}
